@@ -681,6 +681,33 @@ func (e *Env) callExpr(n *ast.CallExpr) (Val, types.Type) {
 		k, _ := e.eval(n.Args[1])
 		_, ok := e.x.mapLoad(e.loadState(), mt, e.x.scalar(m), k)
 		return ok, boolT
+	case "lib":
+		// lib("strings.ReplaceAll", a, b, c): the (assumed) library function as a spec function
+		name, _ := strconv.Unquote(exprString(n.Args[0]))
+		var args []*T
+		for _, a := range n.Args[1:] {
+			v, _ := e.eval(a)
+			args = append(args, e.x.scalar(v))
+		}
+		ret := SStr
+		switch name {
+		case "strings.Contains", "strings.HasPrefix", "strings.HasSuffix", "utf8.ValidString":
+			ret = SBool
+		case "utf8.RuneCountInString":
+			return UF("runecount", SInt, args...), intT
+		}
+		if ret == SBool {
+			return UF("lib!"+name, ret, args...), boolT
+		}
+		return UF("lib!"+name, ret, args...), types.Typ[types.String]
+	case "same":
+		// same(a, b): identical values (for floats: the same IEEE value, not the == operator)
+		a, ta := e.eval(n.Args[0])
+		b, tb := e.eval(n.Args[1])
+		if ta == untypedInt {
+			ta = tb
+		}
+		return e.x.valEq(a, b, ta), boolT
 	case "rlen":
 		v, _ := e.eval(n.Args[0])
 		return UF("rvalue.len", SInt, e.x.scalar(v)), intT
@@ -1016,4 +1043,62 @@ func (e *Env) evalModItem(src string) (it ModItem, err error) {
 		}
 	}
 	return it, fmt.Errorf("unsupported modifies item")
+}
+
+type namedTerm struct {
+	label string
+	t     *T
+}
+
+// expandConjuncts evaluates a boolean contract expression and, when it is a call of a
+// predicate (a spec with a body), returns one term per top-level conjunct of the body
+// (recursively), each labelled with its source text.
+func (e *Env) expandConjuncts(src string, depth int) (out []namedTerm, err error) {
+	defer func() {
+		if r := recover(); r != nil {
+			err = fmt.Errorf("%v in %q", r, src)
+		}
+	}()
+	ex, perr := e.parse(src)
+	if perr != nil {
+		return nil, perr
+	}
+	if call, ok := ex.(*ast.CallExpr); ok && depth < 3 {
+		if id, ok := call.Fun.(*ast.Ident); ok {
+			if sf := e.x.cs.Specs[id.Name]; sf != nil && sf.Body != "" && len(call.Args) == len(sf.Params) {
+				parts := splitAnd(sf.Body)
+				if len(parts) > 1 {
+					e.loadState()
+					sub := &Env{x: e.x, st: e.st, facts: e.facts, vars: map[string]Val{}, types: map[string]types.Type{}, pkg: e.x.ld.pkgByName[sf.Pkg], old: e.old, isPre: e.isPre, bound: e.bound, boundTypes: e.boundTypes, depth: e.depth + 1, heads: e.heads, shim: e.shim}
+					if sub.pkg == nil {
+						sub.pkg = e.pkg
+					}
+					for i, p := range sf.Params {
+						v, t := e.eval(call.Args[i])
+						if pt := e.x.ld.resolveTypeString(sf.Pkg, p.Type); pt != nil {
+							t = pt
+						}
+						sub.vars[p.Name] = v
+						sub.types[p.Name] = t
+					}
+					for _, part := range parts {
+						inner, err := sub.expandConjuncts(part, depth+1)
+						if err != nil {
+							return nil, err
+						}
+						for _, nt := range inner {
+							out = append(out, namedTerm{id.Name + "." + nt.label, nt.t})
+						}
+					}
+					e.flush()
+					return out, nil
+				}
+			}
+		}
+	}
+	t, err := e.evalBool(src)
+	if err != nil {
+		return nil, err
+	}
+	return []namedTerm{{shortExpr(src), t}}, nil
 }
